@@ -176,6 +176,42 @@ def near(k: float, rng=None):
         out += [k + d, k - d]
     return out
 
+
+NONDY = [0.1, 0.2, 0.05, 0.01, 1 / 3, 30.0 / 7, 0.00025, 0.3, 0.7, 1e-3, 30.0, 123.456, 1e-6, 1 / 7]
+
+
+def ulp3(v: float):
+    return [v, math.nextafter(v, math.inf), math.nextafter(v, -math.inf)]
+
+
+def ref_snap_grid_float(x0: float, x1: float, res: float, off, tol: float):
+    """snap_grid as documented, evaluated in binary64 in the code's operation order: floor / ceil of the correctly
+    rounded quotient after the (exact, see ref_maybe_int) near-integer replacement.  'ERR' where the code raises."""
+    def mi(u):
+        k = ref_maybe_int(F(u), F(tol))
+        return u if k is None else k
+
+    if off is None:
+        if res == 0:
+            return "ERR"
+        r = res if res > 0 else -res
+        nx = math.ceil(mi((x1 - x0) / r))
+        return (x0 if res > 0 else x1), max(1, nx)
+    if not 0 <= off < 1 or res == 0 or x1 < x0:
+        return "ERR"
+    o = off * abs(res)
+    a0, a1 = x0 - o, x1 - o
+    if a1 < a0:
+        return "ERR"
+    r = res if res > 0 else -res
+    i0 = math.floor(mi(a0 / r))
+    i1 = math.ceil(mi(a1 / r))
+    nx = max(1, i1 - i0)
+    tx = i0 * r
+    if res < 0:
+        tx = tx + nx * r
+    return tx + o, nx
+
 # =============================================================================== sections
 def sec_split_int(R: Run, M):
     rng = R.rng
@@ -246,6 +282,10 @@ def sec_split_int(R: Run, M):
             for sg in (-1, 1):
                 for v in near(n + sg * tol):     # the tolerance threshold itself, +- tiny
                     one(v, "tol-edge")
+    for sz in NONDY:
+        for k in (1, 3, 7, 10, 33, 1000, -6, -49):
+            for v in ulp3(k * sz) + ulp3((k * sz) / sz) + ulp3(k / sz):
+                one(v, "nondyadic")
     for v in (1.7976931348623157e308, -1.7976931348623157e308, 8.98846567431158e307, 2.2250738585072014e-308, -2.2250738585072014e-308):
         one(v, "special")
     for v in (float("inf"), float("-inf"), float("nan"), 2.0**52 + 1, -(2.0**53), 2.0**60, 1e300, 5e-324, -5e-324,
@@ -508,6 +548,44 @@ def sec_snap_grid(R: Run, M):
         off = rng.choice([None, F(0), F(1, 2), F(rng.randint(0, 2 ** fb - 1), 2 ** fb)])
         tol = rng.choice([TOL2, TOL2, TOL6, F(1, 128), F(0), F(1, 4), F(7, 16)])
         one(q0 * abs(res), q1 * abs(res), res, off, tol, "rnd")
+
+    # non-dyadic pixel sizes, interval ends EXACTLY on k*|res| (+ anchor) as doubles, on the grid edges the code itself
+    # reports (tx + i*res) and one ulp either side: two-sided against the documented formula in binary64 in the code's
+    # operation order (floor / ceil of the correctly rounded quotient), plus the property predicates with slack
+    for _ in range(R.pick(4000, 40000)):
+        r = rng.choice(NONDY)
+        res = rng.choice([-1, 1]) * r
+        off = rng.choice([None, 0.0, 0.5, 0.25, 0.1])
+        tol = rng.choice([0.0, 0.0, 1e-6, 0.01, 1e-10])
+        k0 = rng.choice([0, 1, 3, 10, 49, -7, rng.randint(-2000, 2000)])
+        k1 = k0 + rng.choice([0, 1, 2, 10, 100, rng.randint(0, 5000)])
+        o = 0.0 if off is None else off * r
+        x0 = rng.choice(ulp3(k0 * r + o) + ulp3(k0 * r) + [k0 * r + o])
+        x1 = rng.choice(ulp3(k1 * r + o) + ulp3(k1 * r) + [k1 * r + o])
+        if rng.random() < 0.4:
+            # ends on the edges a previous call reported
+            try:
+                t0, n0 = M.snap_grid(min(x0, x1), max(x0, x1), res, off, tol)
+                x0 = rng.choice(ulp3(t0 + rng.randint(0, n0) * res))
+                x1 = rng.choice(ulp3(t0 + rng.randint(0, n0) * res))
+            except Exception:  # pylint: disable=broad-except
+                pass
+        if x1 < x0:
+            x0, x1 = x1, x0
+        case = {"fn": "snap_grid", "x0": frac_s(x0), "x1": frac_s(x1), "res": frac_s(res), "off": opt_s(off, frac_s), "tol": frac_s(tol),
+                "floats": repr((x0, x1, res, off, tol))}
+        want = ref_snap_grid_float(x0, x1, res, off, tol)
+        try:
+            got = M.snap_grid(x0, x1, res, off, tol)
+            got = (float(got[0]), int(got[1]))
+        except Exception:  # pylint: disable=broad-except
+            got = "ERR"
+        R.oracle(got == want, "snap-grid-differs-from-float-reference", case,
+                 f"snap_grid{(x0, x1, res, off, tol)!r} = {got} but the documented formula in binary64 gives {want}", sig="grid-float-ref")
+        if got != "ERR":
+            scale = max(abs(F(x0)), abs(F(x1)), F(r))
+            grid_oracle(R, F(x0), F(x1), F(res), None if off is None else F(off), F(tol), F(got[0]), got[1],
+                        scale * F(1, 10**9), key_prefix="snap-grid-float", extra={"floats": case["floats"]})
 
     # float stream: arbitrary doubles, judged by the Fraction oracle only
     for _ in range(R.pick(4000, 40000)):
@@ -1044,6 +1122,38 @@ def sec_bin(R: Run, M):
         R.corr(f"c20 bin {sz} {o} {d} 0", lambda: str(M.Bin1D(sz, o, d).bin(0)), sig="bin|bad-args")
     R.corr("c20 fsb 3 5 5 1", lambda: str(M.Bin1D.from_sample_bin(3, (5, 5), 1)), sig="fsb|bad-args")
     R.corr("c20 fsb 3 5 4 -1", lambda: str(M.Bin1D.from_sample_bin(3, (5, 4), -1)), sig="fsb|bad-args")
+    # non-dyadic bin sizes, points EXACTLY on the edges the code itself reports (self[k]) and on k*sz+origin, and one ulp
+    # either side.  IEEE rounding makes the reported intervals overlap / leave gaps of an ulp, so containment is judged
+    # with a slack of a few ulps; the decision itself is pinned by the documented formula evaluated in binary64 in the
+    # code's order: direction * floor(fl(fl(x - origin) / sz))
+    origins = [0.0, 0.0, 0.1, -7.3, 100.25, 1e6 + 0.1, -1 / 3]
+    for sz in NONDY:
+        for origin in origins:
+            for d in (1, -1):
+                try:
+                    bn = M.Bin1D(sz, origin, d)
+                except Exception as ex:  # pylint: disable=broad-except
+                    R.oracle(False, "bin1d-raises", {"sz": sz, "origin": origin, "dir": d}, repr(ex))
+                    continue
+                ks = [0, 1, -1, 2, 3, 7, 9, 10, -10, 49, 100, 1000, -1000] + [rng.randint(-10**4, 10**4) for _ in range(R.pick(6, 40))]
+                for k in ks:
+                    lo_k, hi_k = bn[k]
+                    for e in (lo_k, hi_k, k * sz + origin, (k * sz) * d + origin):
+                        for x in ulp3(e):
+                            case = {"sz": frac_s(sz), "origin": frac_s(origin), "dir": d, "x": frac_s(x), "sz_float": repr(sz), "x_float": repr(x)}
+                            try:
+                                i = bn.bin(x)
+                                lo, hi = bn[i]
+                            except Exception as ex:  # pylint: disable=broad-except
+                                R.oracle(False, "bin1d-raises", case, repr(ex))
+                                continue
+                            want = int(d * math.floor((x - origin) / sz))
+                            R.oracle(i == want, "bin1d-differs-from-float-reference", case,
+                                     f"Bin1D({sz!r},{origin!r},{d}).bin({x!r}) = {i} but direction*floor((x-origin)/sz) in binary64 = {want}; "
+                                     f"self[{i}] = [{lo!r},{hi!r})", sig="bin-float-ref")
+                            sl = 4 * max(math.ulp(x), math.ulp(origin), math.ulp(lo), math.ulp(hi))
+                            R.oracle(lo - sl <= x < hi + sl, "bin1d-point-not-in-its-bin", case,
+                                     f"bin({x!r})={i} whose reported interval is [{lo!r},{hi!r})", sig="bin-edge-f")
     # float stream
     for _ in range(R.pick(2000, 20000)):
         sz = 10.0 ** rng.uniform(-3, 5)
